@@ -8,16 +8,17 @@ import NmVerif.Containers.Core
     buffer_size_ ↦ `cap`
 
   Mirrored behaviours (each checked against the header):
-    * `vector()` allocates 4 (l.145-151); `vector(N)` allocates exactly N — also for N = 0 — sets size N and
-      initialises nothing (l.152-160); copy ctor allocates 4, `resize(other.size_)`, element loop (l.161-174)
-    * `~vector()` frees only when `buffer_ && buffer_size_ > 0` (l.175-180) — a `malloc(0)` block is dropped
+    * `vector()` allocates 4; `vector(N)` allocates exactly N — also for N = 0 —, starts from size 0 and
+      `resize(N)` value-initialises the N elements; copy ctor allocates 4, `resize(other.size_)`, element loop
+    * `~vector()` frees whenever `buffer_` is non-null (also a `malloc(0)` block)
     * variadic ctor allocates 4, `resize(n)`, element writes through `at(i)` (l.183-197)
     * `operator=` = `resize(other.size_)` + element loop (l.199-207)
     * `resize` (l.209-228): sets size_, reallocates to *exactly* `new_size` only when `buffer_size_ < new_size`
-      (memcpy of `old_size` elements, free of the old block), never initialises new elements, never shrinks the block
-    * `push_back` (l.230-238): `resize(size_+1)` when `buffer_size_ < size_+1` else `size_++`; then
-      `buffer_[size_-1] = t` — `t` is a reference: when it aliases an element and the block was reallocated the read
-      goes to the freed block
+      (memcpy of `old_size` elements, free of the old block), never shrinks the block; finally the elements
+      `old_size … new_size-1` are value-initialised (`buffer_[i] = T{}`)
+    * `push_back`: the argument is copied first (`const T value = t` — it may alias an element), then
+      `resize(size_+1)` when `buffer_size_ < size_+1` else `size_++`; then `buffer_[size_-1] = value`
+  (state of the code after the `fix:` commits C19-vector-value-init / -zero-sized-free / -alias-push)
   Core Lean only.
 -/
 namespace NmVerif.Containers
@@ -42,24 +43,25 @@ def mkDefault (L : Ledger) : Vec α × Ledger :=
   ({ blk := some r.1, cells := List.replicate 4 none, size := 0, cap := 4 }, r.2)
 
 /-- `resize(new_size)` -/
-def resize (v : Vec α) (n : Nat) (L : Ledger) : Vec α × Ledger :=
+def resize (zero : α) (v : Vec α) (n : Nat) (L : Ledger) : Vec α × Ledger :=
   match v.blk with
   | none =>
     let r := L.alloc
-    ({ blk := some r.1, cells := List.replicate n none, size := n, cap := n }, r.2)
+    ({ blk := some r.1, cells := List.replicate n (some zero), size := n, cap := n }, r.2)
   | some p =>
     if v.cap < n then
       let r := L.alloc
       -- memcpy of old_size elements out of the old block
       let L' := r.2.flagIf (decide (v.cells.length < v.size)) .oob
-      ({ blk := some r.1, cells := v.cells.take v.size ++ List.replicate (n - v.size) none, size := n, cap := n },
+      ({ blk := some r.1, cells := v.cells.take v.size ++ List.replicate (n - v.size) (some zero), size := n, cap := n },
        L'.free p)
-    else ({ v with size := n }, L)
+    else ({ v with size := n, cells := initRange zero v.cells v.size n },
+          L.flagIf (decide (v.size < n ∧ v.cells.length < n)) .oob)
 
 /-- `vector(N)` -/
-def mkSized (n : Nat) (L : Ledger) : Vec α × Ledger :=
+def mkSized (zero : α) (n : Nat) (L : Ledger) : Vec α × Ledger :=
   let r := L.alloc
-  resize { blk := some r.1, cells := List.replicate n none, size := n, cap := n } n r.2
+  resize zero { blk := some r.1, cells := List.replicate n none, size := 0, cap := n } n r.2
 
 /-- `for i < size_: buffer_[i] = other.buffer_[i]` -/
 def copyFrom (v : Vec α) (o : Vec α) (L : Ledger) : Vec α × Ledger :=
@@ -67,19 +69,19 @@ def copyFrom (v : Vec α) (o : Vec α) (L : Ledger) : Vec α × Ledger :=
    L.flagIf (decide (o.cells.length < v.size ∨ v.cells.length < v.size)) .oob)
 
 /-- `vector(const vector&)` -/
-def mkCopy (o : Vec α) (L : Ledger) : Vec α × Ledger :=
+def mkCopy (zero : α) (o : Vec α) (L : Ledger) : Vec α × Ledger :=
   let r := mkDefault (α := α) L
-  let r := r.1.resize o.size r.2
+  let r := r.1.resize zero o.size r.2
   r.1.copyFrom o r.2
 
 /-- `operator=(other)`, `other` a different object -/
-def assign (v o : Vec α) (L : Ledger) : Vec α × Ledger :=
-  let r := v.resize o.size L
+def assign (zero : α) (v o : Vec α) (L : Ledger) : Vec α × Ledger :=
+  let r := v.resize zero o.size L
   r.1.copyFrom o r.2
 
 /-- `x = x` -/
-def assignSelf (v : Vec α) (L : Ledger) : Vec α × Ledger :=
-  let r := v.resize v.size L
+def assignSelf (zero : α) (v : Vec α) (L : Ledger) : Vec α × Ledger :=
+  let r := v.resize zero v.size L
   r.1.copyFrom r.1 r.2
 
 /-- element writes `at(i) = vᵢ` of the variadic constructor -/
@@ -88,32 +90,25 @@ def storeAll (v : Vec α) : Nat → List α → Ledger → Vec α × Ledger
   | i, a :: as, L => let r := v.store i (some a) L; storeAll r.1 (i + 1) as r.2
 
 /-- `vector(a, b, ts…)` -/
-def mkVariadic (vs : List α) (L : Ledger) : Vec α × Ledger :=
+def mkVariadic (zero : α) (vs : List α) (L : Ledger) : Vec α × Ledger :=
   let r := mkDefault (α := α) L
-  let r := r.1.resize vs.length r.2
+  let r := r.1.resize zero vs.length r.2
   storeAll r.1 0 vs r.2
 
-/-- `push_back(t)`, `t` not aliasing the container -/
-def push (v : Vec α) (a : α) (L : Ledger) : Vec α × Ledger :=
-  let r := if v.cap < v.size + 1 then v.resize (v.size + 1) L else ({ v with size := v.size + 1 }, L)
-  r.1.store (r.1.size - 1) (some a) r.2
+/-- `push_back` of an already copied value (a cell) -/
+def pushCell (zero : α) (v : Vec α) (c : Cell α) (L : Ledger) : Vec α × Ledger :=
+  let r := if v.cap < v.size + 1 then v.resize zero (v.size + 1) L
+           else ({ v with size := v.size + 1 }, L)
+  r.1.store (r.1.size - 1) c r.2
 
-/-- `push_back(buffer_[i])` -/
-def pushAt (v : Vec α) (i : Nat) (L : Ledger) : Vec α × Ledger :=
-  if v.cap < v.size + 1 then
-    match v.blk with
-    | some _ =>
-      -- reallocated: the reference now points into the freed block
-      let r := v.resize (v.size + 1) L
-      r.1.store (r.1.size - 1) none (r.2.flag .uaf)
-    | none =>
-      let r := v.resize (v.size + 1) L
-      r.1.store (r.1.size - 1) none (r.2.flag .oob)
-  else
-    let v' := { v with size := v.size + 1 }
-    match v.cells[i]? with
-    | some c => v'.store (v'.size - 1) c L
-    | none => v'.store (v'.size - 1) none (L.flag .oob)
+/-- `push_back(t)` -/
+def push (zero : α) (v : Vec α) (a : α) (L : Ledger) : Vec α × Ledger := pushCell zero v (some a) L
+
+/-- `push_back(buffer_[i])`: the element is copied before anything else happens -/
+def pushAt (zero : α) (v : Vec α) (i : Nat) (L : Ledger) : Vec α × Ledger :=
+  match v.cells[i]? with
+  | some c => pushCell zero v c L
+  | none => pushCell zero v none (L.flag .oob)
 
 def write (v : Vec α) (i : Nat) (a : α) (L : Ledger) : Vec α × Ledger := v.store i (some a) L
 
@@ -125,23 +120,23 @@ def read (v : Vec α) (i : Nat) (L : Ledger) : Cell α × Ledger :=
 /-- `~vector()` -/
 def destroy (v : Vec α) (L : Ledger) : Ledger :=
   match v.blk with
-  | some p => if 0 < v.cap then L.free p else L.lose p
+  | some p => L.free p
   | none => L
 
 def view (v : Vec α) : List (Cell α) := v.cells.take v.size
 
 end Vec
 
-def vecImpl (α : Type) : Impl (Vec α) α where
+def vecImpl (zero : α) : Impl (Vec α) α where
   mkDefault := Vec.mkDefault
-  mkSized := Vec.mkSized
-  mkVariadic := Vec.mkVariadic
-  mkCopy := Vec.mkCopy
-  assign := Vec.assign
-  assignSelf := Vec.assignSelf
-  push := Vec.push
-  pushAt := Vec.pushAt
-  resize := Vec.resize
+  mkSized := Vec.mkSized zero
+  mkVariadic := Vec.mkVariadic zero
+  mkCopy := Vec.mkCopy zero
+  assign := Vec.assign zero
+  assignSelf := Vec.assignSelf zero
+  push := Vec.push zero
+  pushAt := Vec.pushAt zero
+  resize := Vec.resize zero
   write := Vec.write
   read := Vec.read
   destroy := Vec.destroy
